@@ -127,6 +127,11 @@ def run(tier):
     scens = lc.order(scens)
     obs, traces = lc.execute("C02", scens, shards=4, trace=True, timeout=6000)
     verdict = judge_forced(ck, traces)
+    # a verifier weakened CONSISTENTLY with the prover (dropped / merged identity component)
+    # still rejects every forced proof above; it is visible to the specification-driven
+    # reference verifier on honest proofs of every widget
+    import gadgets
+    gadgets.reference_widgets(ck, tier)
 
     ids = lc.Ids()
     stats = collections.Counter()
